@@ -82,8 +82,13 @@ func (s *snmpService) Handle(_ context.Context, conn net.Conn) error {
 	}
 
 	// the decoder allocates the declared length of every element: make sure
-	// no element claims more than the datagram holds
-	if err := berlen.Check(buf[:n]); err != nil {
+	// no element claims more than the datagram holds. It does not look at the
+	// constructed bit either: what it takes for a structure (every SEQUENCE,
+	// and the context-specific elements, which are the PDUs) it parses as
+	// elements
+	if err := berlen.CheckContainers(buf[:n], func(id byte) bool {
+		return id&0xdf == 0x10 || id&0xc0 == 0x80
+	}); err != nil {
 		return err
 	}
 
